@@ -1265,3 +1265,112 @@ theorem acceptsFast_eq (r : Re) (s : Str) : acceptsFast r s = accepts r s := by
     | cons x xs => rfl
 
 end CssVerif.Validate
+
+/-! ## `validateWithProfile(...)[0]` is `validate(...)` -/
+namespace CssVerif.Validate
+variable {π : Type}
+
+theorem find_of_mem_nodup : ∀ (l : List (Profile π)) (p : Profile π), p ∈ l → (l.map (·.name)).Nodup →
+    l.find? (fun x => x.name == p.name) = some p := by
+  intro l
+  induction l with
+  | nil => intro p hp; simp at hp
+  | cons x r ih =>
+    intro p hp hnd
+    simp only [List.map_cons, List.nodup_cons] at hnd
+    simp only [List.find?_cons]
+    simp only [List.mem_cons] at hp
+    rcases hp with rfl | hp
+    · simp
+    · have hne : (x.name == p.name) = false := by
+        apply beq_eq_false_iff_ne.2
+        intro e
+        exact hnd.1 (by rw [e]; exact List.mem_map.2 ⟨p, hp, rfl⟩)
+      simp only [hne]
+      exact ih p hp hnd.2
+
+theorem get_of_mem (reg : Registry π) (hnd : reg.names.Nodup) (p : Profile π) (hp : p ∈ reg.profiles) :
+    reg.get p.name = .ok p.props := by
+  unfold Registry.get
+  rw [find_of_mem_nodup reg.profiles p hp hnd]
+
+theorem registered_mem_names (reg : Registry π) (q : Str) (h : registered reg q = true) : q ∈ reg.names := by
+  unfold registered at h
+  cases hg : reg.get q with
+  | error e => simp [hg] at h
+  | ok props =>
+    obtain ⟨p, hp, rfl, _⟩ := get_mem reg q props hg
+    exact List.mem_map.2 ⟨p, hp, rfl⟩
+
+/-- `validate` says `True` iff some registered profile accepts -/
+theorem validate_iff (acc : π → Str → Option Bool) (reg : Registry π) (hnd : reg.names.Nodup) (n v : Str) :
+    validate acc reg n v = true ↔ ∃ q ∈ reg.names, acceptsIn acc reg n v q = true := by
+  simp only [validate, List.any_eq_true]
+  constructor
+  · rintro ⟨p, hp, h⟩
+    refine ⟨p.name, List.mem_map.2 ⟨p, hp, rfl⟩, ?_⟩
+    simp only [acceptsIn, get_of_mem reg hnd p hp]
+    exact h
+  · rintro ⟨q, hq, h⟩
+    obtain ⟨p, hp, rfl⟩ := List.mem_map.1 hq
+    refine ⟨p, hp, ?_⟩
+    simp only [acceptsIn, get_of_mem reg hnd p hp] at h
+    exact h
+
+/-- the first component of `validateWithProfile` does not depend on `profiles` nor on `defaultProfiles`:
+it is `validate(name, value)` -/
+theorem vwp_valid_eq_validate (acc : π → Str → Option Bool) (reg : Registry π) (hnd : reg.names.Nodup)
+    (n v : Str) (ps : Option (List Str)) (a m : Bool) (l : List Str)
+    (h : validateWithProfile acc reg n v ps = .ok (a, m, l)) : a = validate acc reg n v := by
+  have hv := validate_iff acc reg hnd n v
+  rw [vwp_unfold] at h
+  by_cases hkn : reg.knownNames.contains n = true
+  · simp only [hkn, Bool.not_true, Bool.false_eq_true, if_false] at h
+    cases h1 : firstAccepting acc reg n v (active reg ps).reverse with
+    | error e => simp [h1] at h
+    | ok o =>
+      simp only [h1] at h
+      cases o with
+      | some q =>
+        simp only [Except.ok.injEq, Prod.mk.injEq] at h
+        have hq := firstAccepting_some acc reg n v _ q h1
+        have hreg : registered reg q = true := by
+          have := hq.2
+          unfold acceptsIn at this
+          unfold registered
+          cases hg : reg.get q with
+          | error e => simp [hg] at this
+          | ok _ => rfl
+        rw [← h.1]
+        exact (hv.2 ⟨q, registered_mem_names reg q hreg, hq.2⟩).symm
+      | none =>
+        simp only at h
+        have hn1 := firstAccepting_none acc reg n v _ h1
+        cases h2 : firstAccepting acc reg n v (reg.names.filter fun p => !(active reg ps).contains p) with
+        | error e => simp only [h2] at h; cases h
+        | ok o2 =>
+          simp only [h2] at h
+          cases o2 with
+          | some q =>
+            simp only [Except.ok.injEq, Prod.mk.injEq] at h
+            have hq := firstAccepting_some acc reg n v _ q h2
+            rw [← h.1]
+            exact (hv.2 ⟨q, (List.mem_filter.1 hq.1).1, hq.2⟩).symm
+          | none =>
+            simp only [Except.ok.injEq, Prod.mk.injEq] at h
+            have hn2 := firstAccepting_none acc reg n v _ h2
+            rw [← h.1]
+            symm
+            apply Bool.eq_false_iff.2
+            intro hval
+            obtain ⟨q, hq, hacc⟩ := hv.1 hval
+            by_cases hin : (active reg ps).contains q = true
+            · have := (hn1 q (List.mem_reverse.2 (by simpa using hin))).2
+              rw [this] at hacc; simp at hacc
+            · have := (hn2 q (List.mem_filter.2 ⟨hq, by simpa using hin⟩)).2
+              rw [this] at hacc; simp at hacc
+  · have hkn' : reg.knownNames.contains n = false := by simpa using hkn
+    simp only [hkn', Bool.not_false, if_true, Except.ok.injEq, Prod.mk.injEq] at h
+    rw [← h.1, validate_unknown acc reg n v hkn']
+
+end CssVerif.Validate
